@@ -256,7 +256,86 @@ def check(ctx):
 
     # ---- Tracker itself ----------------------------------------------------------------------
     _tracker(ix, rep)
+    _shots(ix, rep)
     return rep
+
+
+SAMP = "pennylane/devices/qubit/sampling.py"
+
+
+def _shots(ix, rep):
+    """R-C73-shots: the two accumulators returned by get_num_shots_and_executions move together."""
+    rep.rule("R-C73-shots", "in get_num_shots_and_executions (the source of the tracker's executions/shots) every statement block that "
+             "adds E to the executions counter adds total_shots*E to the shots counter (or both add total_shots: one execution per shot), "
+             "and every block that scales the executions counter scales the shots counter by the same factor")
+    f = ix.func(SAMP, "get_num_shots_and_executions")
+    rep.analysed(SAMP, f.qualname)
+    rets = [n for n in walk_shallow(f.node) if isinstance(n, ast.Return) and isinstance(n.value, ast.Tuple) and len(n.value.elts) == 2
+            and all(isinstance(e, ast.Name) for e in n.value.elts)]
+    if not rets:
+        rep.unknown("R-C73-shots", f"{SAMP}:{f.qualname}", "return (executions, shots) not recognised")
+        return
+    ex, sh = rets[0].value.elts[0].id, rets[0].value.elts[1].id
+
+    def augs(body, name):
+        """AugAssign to `name` directly in `body` or under an `if <...shots...>:` inside it."""
+        out = []
+        for st in body:
+            if isinstance(st, ast.AugAssign) and isinstance(st.target, ast.Name) and st.target.id == name:
+                out.append(st)
+            elif isinstance(st, ast.If) and "shots" in norm(st.test) and not st.orelse and name == sh:
+                out += augs(st.body, name)
+        return out
+
+    def is_total(e):
+        return norm(e).endswith("shots.total_shots")
+
+    blocks = []
+    for n in ast.walk(f.node):
+        for fld in ("body", "orelse"):
+            b = getattr(n, fld, None)
+            if isinstance(b, list) and b and isinstance(b[0], ast.stmt):
+                blocks.append(b)
+    n_blocks = 0
+    for b in blocks:
+        e_aug = augs(b, ex)
+        if not e_aug:
+            continue
+        n_blocks += 1
+        s_aug = augs(b, sh)
+        for ea in e_aug:
+            where = f"{SAMP}:{f.qualname} {norm(ea)}"
+            same_op = [x for x in s_aug if type(x.op) is type(ea.op)]
+            if not same_op:
+                rep.refuted("R-C73-shots", SAMP, f.qualname, ea,
+                            f"the executions counter is updated ({norm(ea)}) but the shots counter is not updated alongside it: the tracker's "
+                            "shots total no longer equals executions x shots for these circuits")
+                continue
+            sa = same_op[0]
+            E, S = ea.value, sa.value
+            ok = None
+            if isinstance(ea.op, ast.Mult):
+                ok = norm(E) == norm(S)
+            elif isinstance(ea.op, ast.Add):
+                if isinstance(E, ast.Constant) and E.value == 1:
+                    ok = is_total(S)
+                elif is_total(E):
+                    ok = is_total(S)
+                elif isinstance(S, ast.BinOp) and isinstance(S.op, ast.Mult):
+                    parts = {norm(S.left), norm(S.right)}
+                    ok = norm(E) in parts and any(p.endswith("shots.total_shots") for p in parts)
+                elif is_total(S) and isinstance(E, (ast.Name, ast.Call)):
+                    ok = False  # k executions but only one execution's worth of shots
+                else:
+                    ok = None
+            if ok is True:
+                rep.proved("R-C73-shots", where, f"paired with {norm(sa)}")
+            elif ok is False:
+                rep.refuted("R-C73-shots", SAMP, f.qualname, sa,
+                            f"executions are updated with `{norm(ea)}` but shots with `{norm(sa)}`: the two counters no longer move together")
+            else:
+                rep.unknown("R-C73-shots", where, f"pairing with {norm(sa)} not modelled")
+    rep.floor("executions-counter update blocks in get_num_shots_and_executions", n_blocks, 5)
 
 
 def _raw_uses(rep, m, qn, inner, circ, wrapped):
